@@ -22,6 +22,7 @@ EXPLANATION = (
     'factory (the two .dict() exports merged, nothing filtered), tables: every sub-parser gets set_defaults(**defaults) and the parent parsers; the profile section '
     'updates the default section; every source assignment is unconditional (a later source always overrides); per option the converters used by file / environment / '
     'CLI belong to one equivalence class; mutually exclusive pairs are checked / grouped; custom-backend discovery shape. Rules C19.R1-R6.'
+    ' Added with the seeded-defect rounds: option values travel by reference (no asdict / deepcopy), every Config field is some option\'s dest, the missing-file handler covers read_config only, a backend\'s short name is its own class name.'
 )
 NOT_DECIDED = "argparse's own precedence of explicit values over set_defaults (library behaviour); actual runs of main() for source subsets"
 TRUSTED = ['argparse: explicit command-line values override parser-level defaults, which override argument-level defaults', 'CPython ast']
